@@ -49,6 +49,8 @@ pub(crate) struct ReCompiler {
     captures: HashSet<usize>,
     has_back_references: bool,
 
+    #[cfg(regexml_verif)]
+    pub(crate) no_optimize: bool,
     re_flags: ReFlags,
 }
 
@@ -96,6 +98,8 @@ impl ReCompiler {
             bracket_max: 0,
             captures: HashSet::new(),
             has_back_references: false,
+            #[cfg(regexml_verif)]
+            no_optimize: false,
             re_flags,
         }
     }
@@ -964,6 +968,17 @@ impl ReCompiler {
     }
 
     pub(crate) fn compile(mut self) -> Result<ReProgram, Error> {
+        #[cfg(regexml_verif)]
+        if self.no_optimize && self.re_flags.is_literal() {
+            let ret = Operation::from(Atom::new(self.pattern.clone()));
+            let seq = Self::make_sequence(ret, Operation::from(EndProgram));
+            return Ok(ReProgram::new_unoptimized(
+                self.pattern,
+                seq,
+                Some(self.capturing_open_paren_count),
+                self.re_flags.clone(),
+            ));
+        }
         if self.re_flags.is_literal() {
             // 'q' flag is set
             // create a string node
@@ -1024,6 +1039,19 @@ impl ReCompiler {
                     return Err(Error::syntax("Unmatched close paren"));
                 }
                 return Err(Error::syntax("Unexpected input remains"));
+            }
+            #[cfg(regexml_verif)]
+            if self.no_optimize {
+                let mut program = ReProgram::new_unoptimized(
+                    self.pattern,
+                    operation,
+                    Some(self.capturing_open_paren_count),
+                    self.re_flags.clone(),
+                );
+                if self.has_back_references {
+                    program.optimization_flags |= OPT_HASBACKREFS;
+                }
+                return Ok(program);
             }
             let operation = operation.optimize(&self.re_flags);
 
